@@ -115,10 +115,11 @@ theorem tbl_tokPost_inner {spec specIn : SState → Spec.TreeModes.M (Step Id)} 
       specIn (absF s1 x1) = .ok (stepOf res s2 x2) → absF s3 x2 = F (absF s2 x2) →
       spec (absF s x) = .ok (stepOf res s3 x2)) :
     TokPost spec s tok res s3 (c1 ++ (c2 ++ c3)) := by
-  obtain ⟨hm1, hc1, hx1, ids1, f1⟩ := h1
-  obtain ⟨hres, hm2', hc2, ids2, f2⟩ := h2
-  obtain ⟨hm3, hc3, hx3, ids3, f3⟩ := h3 (tbl_mInv_unapplyRes hm2')
-  refine ⟨hres, hm3.applyRes res, (hc3.trans hc2).trans hc1, ids1 ++ (ids2 ++ ids3), fun x rest hx hs => ?_⟩
+  obtain ⟨hm1, hc1, hx1, ids1, hfi1, f1⟩ := h1
+  obtain ⟨hres, hm2', hc2, ids2, hfi2, f2⟩ := h2
+  obtain ⟨hm3, hc3, hx3, ids3, hfi3, f3⟩ := h3 (tbl_mInv_unapplyRes hm2')
+  refine ⟨hres, hm3.applyRes res, (hc3.trans hc2).trans hc1, ids1 ++ (ids2 ++ ids3),
+    hfi1.append ((hfi2.append (hfi3.of_dom he2.ext)).of_dom hx1), fun x rest hx hs => ?_⟩
   obtain ⟨x1, l1, r1⟩ := f1 x (ids2 ++ (ids3 ++ rest)) hx (by rw [hs]; simp only [List.append_assoc])
   obtain ⟨x2, ops2, e2, hok2, hstop2, hsup2, hout2, houts2, hlog2, hcalls2⟩ := f2 x1 (ids3 ++ rest) l1.aux l1.supply
   have hlive2 : x2.stopped = false := by
@@ -285,7 +286,7 @@ theorem tbl_tr_fields {s s' : State} {c : List Call} {R : Aux → Aux → Prop} 
     (hR : ∀ x x', AuxOk s x → AuxOk s' x' → R x x' → (absF s' x').mode = (absF s x).mode ∧
       (absF s' x').templateModes = (absF s x).templateModes) :
     s'.mode = s.mode ∧ s'.templateModes = s.templateModes := by
-  obtain ⟨hm', -, -, ids, f⟩ := h
+  obtain ⟨hm', -, -, ids, hfi, f⟩ := h
   obtain ⟨x, hx, hsup⟩ := tbl_auxOk_exists hm ids
   obtain ⟨x', l, r⟩ := f x [] hx (by simp [hsup])
   obtain ⟨h1, h2⟩ := hR x x' hx l.aux r
@@ -686,8 +687,8 @@ theorem tbl_absF_toText (s1 : State) (x : Aux) (h : s1.pendingTableText = []) :
 
 theorem tbl_tr_withMode {s s' : State} {calls : List Call} {R : Aux → Aux → Prop} (h : Tr s s' calls R) (m : Mode) :
     Tr s { s' with mode := m } calls R := by
-  obtain ⟨hm, hc, he, ids, f⟩ := h
-  refine ⟨hm.withMode m, hc, he, ids, fun x rest hx hs => ?_⟩
+  obtain ⟨hm, hc, he, ids, hfi, f⟩ := h
+  refine ⟨hm.withMode m, hc, he, ids, hfi, fun x rest hx hs => ?_⟩
   obtain ⟨x', l, r⟩ := f x rest hx hs
   exact ⟨x', ⟨l.aux.withMode m, l.supply, l.switch, l.script, l.outs, l.log⟩, r⟩
 
@@ -756,7 +757,7 @@ theorem tbl_tr_toText {s s1 : State} {c1 : List Call} (c : Char)
 theorem tbl_tr_curIn {s s1 : State} {c1 : List Call} {b : Bool} {l : List String} (hm : MInv s)
     (h : Tr s s1 c1 (fun x x' => x' = x ∧ absF s x = absF s1 x ∧ (absF s x).curIn l = b)) :
     ∀ x, AuxOk s x → (absF s x).curIn l = b := by
-  obtain ⟨-, -, -, ids, f⟩ := h
+  obtain ⟨-, -, -, ids, hfi, f⟩ := h
   obtain ⟨x0, hx0, hsup⟩ := tbl_auxOk_exists hm ids
   obtain ⟨x', _, -, -, r⟩ := f x0 [] hx0 (by simp [hsup])
   intro x hx
